@@ -285,7 +285,9 @@ def guard_class(ty):
         return 'CONTEXT'
     if 'descriptor::DescriptorKey' in ty or 'descriptor::Descriptor' in ty:
         return 'DESCRIPTOR'
-    if 'HashMap<std::string::String' in ty and ('dyn std::ops::Fn' in ty or 'operator::InfixOpConfig' in ty):
+    if 'HashMap<std::string::String' in ty:
+        # a String-keyed map behind an engine lock that is neither the context nor the descriptor
+        # store: an operator / function registry (also inside helpers generic over the value type)
         return 'REGISTRY'
     return 'OTHER'
 
@@ -416,10 +418,48 @@ class Program:
                 self.edges[c.body.id].add(cu)
                 self.edge_sites.setdefault((c.body.id, cu), []).append(c)
                 self.closure_call_sites.setdefault(cu, []).append(c)
+        self._resolve_fnptr_params()
         self.callers = {b.id: set() for b in self.bodies}
         for a, bs in self.edges.items():
             for b in bs:
                 self.callers[b].add(a)
+
+    def _resolve_fnptr_params(self):
+        """an indirect call `p(..)` where p is a plain `fn(..)` parameter of a private body and every
+        call site passes a fn item / enum constructor of this crate is a direct call in disguise, not a
+        callback into user code"""
+        keep = []
+        self.resolved_indirect = {}
+        for c in self.callback_sites:
+            body = c.body
+            if not c.is_indirect or body.is_closure or body.is_pub and not body.impl_self:
+                keep.append(c); continue
+            fo = single_origin(trace_operand(body, c.term['func'], through_calls=set()))
+            if fo is None or fo.kind != 'param' or fo.proj or not body.locals[fo.data]['ty'].startswith('fn('):
+                keep.append(c); continue
+            sites = []
+            for b2 in self.bodies:
+                for cc in b2.live_calls:
+                    if cc.ruid == body.id:
+                        sites.append(cc)
+            targets = []
+            okk = bool(sites)
+            for cc in sites:
+                if fo.data - 1 >= len(cc.args):
+                    okk = False; break
+                ao = single_origin(trace_operand(cc.body, cc.args[fo.data - 1], through_calls=set()))
+                if ao is not None and ao.kind == 'const' and 'fn' in ao.data and ao.data['fn'].get('crate') == self.f.crate:
+                    targets.append(ao.data['fn']['uid'])
+                else:
+                    okk = False; break
+            if not okk:
+                keep.append(c); continue
+            self.resolved_indirect[(body.id, c.bb)] = targets
+            for tu in targets:
+                if tu in self.by_id:
+                    self.edges[body.id].add(tu)
+                    self.edge_sites.setdefault((body.id, tu), []).append(c)
+        self.callback_sites = keep
 
     def _generic_edges(self):
         """external generic code that calls back into local trait impls: Vec<T>/Box<T>/Option<T>
@@ -465,6 +505,11 @@ class Program:
                         if re.search(r'(^|[^\w:])%s\b' % re.escape(adt), args):
                             self.edges[body.id].add(ib.id)
                             self.edge_sites.setdefault((body.id, ib.id), []).append(c)
+
+    def is_callback(self, c):
+        """a call into code the engine does not own (dyn Fn / fn pointer / generic F) — not an indirect
+        call that was resolved to crate fn items"""
+        return (c.is_virtual or c.is_indirect) and (c.body.id, c.bb) not in self.resolved_indirect
 
     def reach(self, entry_ids, stop=()):
         seen = set()
